@@ -24,6 +24,24 @@ def _mod(name, fn="run"):
     return f
 
 
+def _usable_only(f):
+    """C11 speaks about USABLE engines: disagreements of engines with which RC2 constructs but
+    does not work (kissat ignores assumptions, lingeling lacks limited solving) are reported in
+    `extra`, not as violations"""
+
+    def g(tier, seed):
+        r = f(tier, seed)
+        keep, dropped = [], []
+        for v in r["violations"]:
+            (dropped if (v.get("input") or {}).get("engine_class") == "constructs-but-defective" else keep).append(v)
+        r["violations"] = keep
+        r.setdefault("extra", {})["defective_engine_disagreements_not_counted"] = len(dropped)
+        return r
+
+    g.module = getattr(f, "module", None)
+    return g
+
+
 def _both(*fs):
     """merge several Engine B runs"""
 
@@ -120,7 +138,7 @@ PROPS = {
     ),
     "C08": dict(
         level="other",
-        bounded=_mod("rel", "run_c08"),
+        bounded=_both(_mod("rel", "run_c08"), _mod("extra", "run_c08x")),
         trusted=TB,
         assumed=["the inclusion theorems of the cited papers"],
         explanation="Relational (oracle-free) run-time contract over the shipped corpora and generated bases of up to dozens of atoms, "
@@ -128,7 +146,7 @@ PROPS = {
     ),
     "C09": dict(
         level="other",
-        bounded=_mod("rel", "run_c09"),
+        bounded=_both(_mod("rel", "run_c09"), _mod("extra", "run_c09x")),
         trusted=TB,
         assumed=["L9a-e (System P from preferential semantics)"],
         explanation="Engine P proves general_inference's short cuts (reflexivity / supraclassicality path); the postulates are "
@@ -145,7 +163,7 @@ PROPS = {
     ),
     "C11": dict(
         level="other",
-        bounded=_both(_mod("rel", "run_c11"), _mod("pure"), _mod("mcsz3")),
+        bounded=_both(_usable_only(_mod("rel", "run_c11")), _mod("pure"), _mod("mcsz3"), _mod("extra", "run_c11x")),
         trusted=TB + ["TB-z3", "TB-time", "TB-sat (assumed for every engine name)"],
         assumed=[],
         explanation="Engine P proves the back-end dispatch (create_inference_instance, create_optimizer) and the z3 back-ends' "
@@ -235,7 +253,7 @@ NOT_APPLICABLE = {}
 
 
 # Engine B modules that are finished and reviewed (a module file may exist while still in work)
-READY_MODULES = {"c06", "c10", "c13", "c14", "c15", "c16", "c17", "c18", "c19", "c20", "lexbias", "pure", "mcsz3", "extra"}
+READY_MODULES = {"c06", "c10", "c13", "c14", "c15", "c16", "c17", "c18", "c19", "c20", "lexbias", "pure", "mcsz3", "extra", "rel"}
 
 
 def available(pid):
